@@ -141,8 +141,15 @@ func verify(path string, ackedN int, ackOffs map[int]string, saves map[string]st
 		if err != nil {
 			return "loadoffset-failed", fmt.Sprintf("LoadOffset(%s) after reopen: %v", sub, err)
 		}
-		ok := string(got) == want || (want == "" && got == "0")
-		if !ok && sub == inflightSub && string(got) == inflightOff {
+		// the oldest offset is spelled "" or "0"
+		norm := func(o string) string {
+			if o == "" {
+				return "0"
+			}
+			return o
+		}
+		ok := norm(string(got)) == norm(want)
+		if !ok && sub == inflightSub && norm(string(got)) == norm(inflightOff) {
 			ok = true // the save in flight when the process was killed
 		}
 		if !ok {
@@ -176,7 +183,14 @@ func TestC14(t *testing.T) {
 	}
 	os.MkdirAll(scratch, 0o755)
 	nAck := run.Scale(12, 200)
+	only := -1
+	if v := os.Getenv("VERIF_C14_ONLY"); v != "" {
+		only, _ = strconv.Atoi(v) // debugging aid: run one case and keep its directory
+	}
 	for i := 0; i < nAck; i++ {
+		if only >= 0 && i != only {
+			continue
+		}
 		rng := run.Rand(uint64(i))
 		dir := filepath.Join(scratch, fmt.Sprintf("c%d", i))
 		os.MkdirAll(dir, 0o755)
@@ -280,7 +294,7 @@ func TestC14(t *testing.T) {
 				// likewise the save that was in flight may have taken effect (verify accepted it):
 				// it is part of the durable state that later cycles build on
 				if inSub != "" {
-					if got, err := st.LoadOffset(context.Background(), inSub); err == nil && string(got) == inOff && inOff != "" {
+					if got, err := st.LoadOffset(context.Background(), inSub); err == nil && (string(got) == inOff || (inOff == "" && got == "0")) {
 						saves[inSub] = inOff
 					}
 				}
@@ -296,7 +310,9 @@ func TestC14(t *testing.T) {
 		if i < 2 {
 			run.Sample(map[string]any{"plans": plans, "acked_appends": totalAcked})
 		}
-		os.RemoveAll(dir)
+		if only < 0 {
+			os.RemoveAll(dir)
+		}
 	}
 }
 
